@@ -37,7 +37,8 @@ fn gen_searcher(rng: &mut Rng, pal: &[u8], many_ok: bool) -> SearcherSpec {
             opts.match_kind = MKind::LeftmostFirst;
         }
     }
-    SearcherSpec { patterns, opts, packed }
+    let packed_cfg = if packed { *rng.pick(&[0u8, 0, 0, 1, 2, 3, 4, 5]) } else { 0 };
+    SearcherSpec { patterns, opts, packed, packed_cfg }
 }
 
 fn gen_search(rng: &mut Rng, sc: &ThreadScenario, pal: &[u8], s: usize, fixed_only: bool) -> Search {
@@ -296,7 +297,7 @@ pub fn gen_race(seed: u64, idx: u64) -> ThreadScenario {
     let mut sc = ThreadScenario {
         prop: "C17".into(),
         origin: format!("race seed={} idx={}", seed, idx),
-        searchers: vec![SearcherSpec { patterns: patterns.clone(), opts, packed }],
+        searchers: vec![SearcherSpec { patterns: patterns.clone(), opts, packed, packed_cfg: if packed { (idx % 6) as u8 } else { 0 } }],
         fixed_hays: Vec::new(),
         threads: Vec::new(),
         slots: 0,
